@@ -184,6 +184,34 @@ fn boundary_cases(dict: &zspec::dict::Dict) -> Vec<(String, Vec<u8>, Option<Vec<
             }
         }
     }
+    // a match that starts in the dictionary and runs k bytes into the output, then literals up to j bytes below the
+    // window size, then a match into the dictionary (still reachable: the output is within the window); j < k
+    for (k, j) in [(5usize, 1usize), (40, 3), (200, 1), (200, 150), (700, 2)] {
+        let reach = 4usize.min(l);
+        let ml1 = (reach + k) as u32;
+        let lits2 = 1024 - j - ml1 as usize;
+        let literals: Vec<u8> = (0..lits2).map(|i| b'a' + (i % 23) as u8).collect();
+        // second match: starts 3 bytes before the start of the output, 3 bytes long (inside the dictionary)
+        let offset2 = (ml1 as usize + lits2 + 3.min(l)) as u32;
+        let plan = FramePlan {
+            header: HeaderSpec { window_descriptor: Some(0x00), dict_id: Some((dict.id, 4)), ..Default::default() },
+            blocks: vec![BlockPlan::Compressed(CompressedPlan {
+                literals,
+                lit: LitPlan::Raw { size_format: None },
+                seqs: vec![SeqPlan { ll: 0, ml: ml1, offset: OffsetPlan::Raw(reach as u32) }, SeqPlan { ll: lits2 as u32, ml: 3, offset: OffsetPlan::Raw(offset2) }],
+                ll_mode: TableMode::Predefined,
+                of_mode: TableMode::Predefined,
+                ml_mode: TableMode::Predefined,
+                seq_count_form: CountForm::Auto,
+            })],
+            dict: Some(dict.clone()),
+            checksum_override: None,
+        };
+        let s = synth::synthesise(&plan);
+        if s.rule_violations.is_empty() {
+            out.push((format!("boundary: a match running {k} bytes from the dictionary into the output, then a dictionary match {j} bytes before the window is full"), s.bytes, Some(s.expected)));
+        }
+    }
     // output == window - 1 and == window: the dictionary is still reachable (window 1 KiB)
     for produced in [1023usize, 1024] {
         let (bytes, expected, viol) = mk(produced - 2, 2, 6, 3, 0x00);
@@ -298,7 +326,28 @@ pub fn run(args: &Args) -> i32 {
             match res {
                 Err(p) => rec.panic_violation(&p, "missing dictionary", json!({}), replay.clone()),
                 Ok(Err(e)) => rec.inconclusive(&e),
-                Ok(Ok(Ok(id))) if id == t.id => rec.count("missing_dictionary_refusals", 1),
+                Ok(Ok(Ok(id))) if id == t.id => {
+                    rec.count("missing_dictionary_refusals", 1);
+                    // the caller reacts to the refusal: registers the dictionary the error names, selects it, decodes
+                    let late = catch(|| -> Result<Vec<u8>, String> {
+                        let missing: Vec<&TrainedDict> = dicts.iter().filter(|x| x.id != t.id).collect();
+                        let mut d = decoder_with(&missing)?;
+                        let mut src = &frame[..];
+                        let _ = d.reset(&mut src);
+                        let dd = Dictionary::decode_dict(&t.raw).map_err(|e| format!("HARNESS decode_dict: {e}"))?;
+                        d.add_dict(dd).map_err(|e| format!("add_dict: {e}"))?;
+                        d.force_dict(t.id).map_err(|e| format!("force_dict: {e}"))?;
+                        d.decode_blocks(&mut src, BlockDecodingStrategy::All).map_err(|e| format!("decode: {e}"))?;
+                        Ok(d.collect().unwrap_or_default())
+                    });
+                    match late {
+                        Err(p) => rec.panic_violation(&p, "dictionary given after the refusal", json!({}), replay.clone()),
+                        Ok(Ok(out)) if out == data => rec.count("dictionary_given_after_refusal_decodes", 1),
+                        Ok(Ok(out)) => rec.violation(Sig::new("wrong_output", "dictionary given after the refusal", "add_dict + force_dict + decode"), json!({"got_len": out.len(), "expected_len": data.len()}), replay.clone()),
+                        Ok(Err(e)) if e.starts_with("HARNESS") => rec.inconclusive(&e),
+                        Ok(Err(e)) => rec.violation(Sig::new("dictionary_frame_rejected", "dictionary given after the refusal", &short(&e)), json!({"error": e, "dictionary": t.what}), replay.clone()),
+                    }
+                }
                 Ok(Ok(other)) => rec.violation(Sig::new("missing_dictionary_not_refused", "reset", &short(&format!("{other:?}"))), json!({"got": format!("{other:?}"), "expected_dict_id": t.id}), replay.clone()),
             }
         }
